@@ -110,10 +110,6 @@ theorem isThisValue_spec (G : Graph) (hn : NoCycle (csucc G)) (t : Name) (c : Cl
           · exact hnohit h
           · exact h2 h
 
-/-- the `Throwable` fallback of `catchTypeMatches` is harmless when `Exception` and `Error` objects are `Throwable` -/
-def ThrowableOK (G : Graph) (c : Cls) : Prop :=
-  (IsA G c exceptionName → IsA G c throwableName) ∧ (IsA G c errorName → IsA G c throwableName)
-
 /-- **catch (T)** -/
 theorem isThrown_spec (G : Graph) (hn : NoCycle (csucc G)) (t : Name) (c : Cls) (hok : ThrowableOK G c) :
     Decides (isThrown G t c) (IsA G c t) := by
@@ -215,5 +211,13 @@ theorem instanceofOp_spec (G : Graph) (hwf : WF G) (hac : Acyclic G) (t : Name) 
           rw [hnone] at this; cases this
         · have := (hwf.1 c' hc').1 n hext
           rw [hnone] at this; cases this
+
+theorem decides_of_kind (G : Graph) (hac : Acyclic G) (k : Kind) (c : Cls) (t : Name) (hok : KindOK G c k) :
+    Decides (isInstanceOf G k c t) (IsA G c t) := by
+  cases k with
+  | op => exact instanceofOp_spec G hok.1 hac t c hok.2
+  | param => exact isClassValue_spec G hac.1 t c
+  | this => exact isThisValue_spec G hac.1 t c
+  | thrown => exact isThrown_spec G hac.1 t c hok
 
 end Proofs.Hier
